@@ -194,10 +194,26 @@ def edit_op(rnd, f='a', span=12, other=None, weights=None):
 
 def motif(rnd, f='a', span=12):
     """short directed sequences aimed at incremental-update corner cases (each step is an ordinary editing operation)"""
-    k = rnd.choice(['introduce', 'there-and-back', 'swap', 'chain-edit', 'erase-recreate', 'func-body-edit', 'index-edit'])
+    k = rnd.choice(['introduce', 'there-and-back', 'swap', 'chain-edit', 'erase-recreate', 'func-body-edit', 'index-edit', 'func-retype', 'text-ref-erase'])
     i, j, t = rnd.randrange(span), rnd.randrange(span), rnd.randrange(span)
     name = rnd.choice(DANGLING[:6])
     mk = lambda **kw: dict({'op': 'form.op', 'f': f}, **kw)
+    if k == 'func-retype':
+        # a function is redefined with the same arity but another argument type while constituents call it
+        return [mk(k='emplace', type='function', **{'def': '[α∈ℬ($[0])] α∪α'}),
+                mk(k='emplace', type='term', **{'def': '$[-1][$[0]]'}),
+                mk(k='setexpr', uid={'idx': -2}, text='[α∈ℬ($[0]×$[0])] Pr1(α)'),
+                mk(k='emplace', type='term', **{'def': '$[-3][$[0]×$[0]]'}),
+                mk(k='setexpr', uid={'idx': -3}, text=rnd.choice(['[α∈ℬ($[0])] α∪α', '[α∈ℬℬ($[0])] red(α)', '[α∈$[0]] {α}']))]
+    if k == 'text-ref-erase':
+        # a text definition refers to another constituent; the referring constituent is erased after the reference graphs were
+        # used, then the referred term changes again
+        return [mk(k='emplace', type='term', **{'def': '$[0]\\$[0]'}),
+                mk(k='setdef', uid={'idx': -1}, text='определение через @{$[%d]|nomn,sing}' % i),
+                mk(k='setterm', uid={'idx': i}, text=rnd.choice(['кот', 'множество'])),
+                mk(k='erase', uid={'idx': -1}),
+                mk(k='setterm', uid={'idx': i}, text=rnd.choice(['пёс', 'большой @{$[%d]|nomn,sing}' % j])),
+                mk(k='setterm', uid={'idx': j}, text='иной')]
     if k == 'index-edit':
         # edits that change nothing but an index of a projection / filter (same tree shape, same operands)
         forms = ['Pr1($[0]×$[%d])', 'Pr2($[0]×$[%d])', 'Pr2,1($[0]×$[%d])', 'Pr1,2($[0]×$[%d])', 'D{ξ∈$[0]×$[%d] | pr1(ξ)=pr1(ξ)}', 'D{ξ∈$[0]×$[%d] | pr2(ξ)=pr1(ξ)}',
